@@ -53,9 +53,12 @@ def _describe(case):
     rules = ["%s %s->%d (subtable %d)" % ({1: "single", 3: "alternate", 4: "ligature"}[r["t"]],
                                            "+".join(map(str, r["src"])), r["dst"], r["sub"])
              for r in case["rules"]]
-    return "%s font, %d glyphs, names=%r, cmap=%s, GSUB=[%s]" % (
+    text = ""
+    if case.get("text"):
+        text = ", glyph text=%s" % [" ".join("U+%04X" % c for c in t) for t in case["text"]]
+    return "%s font, %d glyphs, names=%r, cmap=%s, GSUB=[%s]%s" % (
         case["kind"], case["n"], [_s(x) for x in case["names"]],
-        ["U+%04X->%d" % (c, g) for c, g in case["cmap"]], "; ".join(rules))
+        ["U+%04X->%d" % (c, g) for c, g in case["cmap"]], "; ".join(rules), text)
 
 
 def _nontrivial(case):
@@ -204,13 +207,15 @@ def _replay_ps(ctx, case):
 
 
 def _rank(case):
-    return (case["n"], len(case["rules"]), len(case["cmap"]), len(case["names"]))
+    return (case["n"], len(case["rules"]), len(case["cmap"]), len(case["names"]),
+            sum(1 for t in case.get("text") or [] if t))
 
 
 # ----------------------------------------------------------------------------- the check
 def _model(ctx):
     runs = [("Names", "Names.cfg", None, "Names exhaustive: names x cmap, <= 3 glyphs"),
-            ("Names", "NamesTinyRules.cfg", None, "Names exhaustive: names x 1 GSUB rule, <= 3 glyphs")]
+            ("Names", "NamesTinyRules.cfg", None, "Names exhaustive: names x 1 GSUB rule, <= 3 glyphs"),
+            ("Names", "NamesTinyText.cfg", None, "Names exhaustive: colliding names x shared glyph text, <= 4 glyphs")]
     if not ctx.quick():
         runs += [("Names", "NamesTinyCmap.cfg", None, "Names exhaustive: names x 2 codes, <= 4 glyphs"),
                  ("Names", "NamesTinyAll.cfg", None, "Names exhaustive: names x 1 code x 1 rule, <= 3 glyphs"),
@@ -265,6 +270,12 @@ def _generate(ctx):
                  files={"NamesG5.cfg": _cfg("NamesGen.cfg", Codes="{65}", MaxN="4", MaxRules="3", RuleTypes="{1, 3}",
                                             PoolSel='"tiny"')},
                  label="Names generation (simulate, shared subtables)"), "generation (shared subtables)")
+    # collision multiplicity: 3..5 glyphs share one text / one rule source while "A", "A.1", "A.2",
+    # "A.alt1", "A.alt2" may already be held by given names (k-way competition for one base name)
+    take(ctx.tlc("Names", cfg="NamesG6.cfg", workers=w, simulate=ctx.pick(120, 1000), depth=80, timeout=1500,
+                 files={"NamesG6.cfg": _cfg("NamesGen.cfg", Codes="{65}", MaxN="6", MaxRules="4", RuleTypes="{1, 3}",
+                                            PoolSel='"clash"', TextSel='"A"')},
+                 label="Names generation (simulate, k-way name collisions)"), "generation (collisions)")
     if not ctx.quick():
         take(ctx.tlc("Names", cfg="NamesG3.cfg", workers=w, simulate=400, depth=80, timeout=1500,
                      files={"NamesG3.cfg": _cfg("NamesGen.cfg", Codes="{102, 105, 64257}", MaxN="4", MaxRules="2")},
